@@ -76,7 +76,7 @@ SRC_KERNELS = {
     "C15": ["SHADE_generate_F_CR", "SHADE_update_u_F", "DE_greedy_replacement", "jDE_greedy_replacement", "SHADE_bookkeeping", "SHAGA_bookkeeping", "jDE_get_mutate_F", "jDE_get_mutate_CR"],
     "C16": ["get_n_jobs", "EA_split_population"],
     "C17": ["EA_update_data"],
-    "C19": ["recall_counts", "precision_counts", "f1_counts", "Metrics_accuracy_score", "Metrics_mse"],
+    "C19": ["recall_counts", "precision_counts", "f1_counts", "Metrics_accuracy_score", "Metrics_mse", "Metrics_r2"],
 }
 
 
